@@ -185,10 +185,11 @@ func (f *Frame) run(args []string, entryReach string, entry *State) {
 				f.vals[phi] = f.phiTerm(phi, preds, edges)
 			}
 		}
-		for _, in := range b.Instrs {
+		for i, in := range b.Instrs {
 			if _, ok := in.(*ssa.Phi); ok {
 				continue
 			}
+			f.curIdx = i
 			f.exec(in)
 		}
 		f.out[b] = f.cur
@@ -850,7 +851,10 @@ func (f *Frame) havocAll(st *State, why string) {
 					continue
 				}
 				r, done := fr.vals[a]
-				if !done || !privateAlloc(a) {
+				if os.Getenv("GOVC_DEBUG_PRIVATE") != "" {
+					fmt.Fprintln(os.Stderr, "havoc", why, "alloc", a.Name(), a.Comment, "done", done, "private", privateAlloc(a), "later", fr.privateUntilLater(a))
+				}
+				if !done || !(privateAlloc(a) || fr.privateUntilLater(a)) {
 					continue
 				}
 				et := a.Type().(*types.Pointer).Elem()
@@ -873,6 +877,92 @@ func (f *Frame) havocAll(st *State, why string) {
 			}
 		}
 	}
+}
+
+// privateUntilLater: the address produced by a does get out (it is stored or
+// passed on), but only by instructions that cannot have run yet when the
+// current instruction runs: the current block dominates theirs, they come
+// later, and neither sits in a loop (no earlier iteration can have run them).
+func (f *Frame) privateUntilLater(a *ssa.Alloc) bool {
+	inLoop := func(b *ssa.BasicBlock) bool {
+		for _, li := range f.loops {
+			if li.body[b] {
+				return true
+			}
+		}
+		return false
+	}
+	cb := f.curBlock
+	if cb == nil || inLoop(cb) || inLoop(a.Block()) {
+		return false
+	}
+	reaches := func(from, to *ssa.BasicBlock) bool {
+		seen := map[*ssa.BasicBlock]bool{}
+		work := append([]*ssa.BasicBlock{}, from.Succs...)
+		for len(work) > 0 {
+			b := work[len(work)-1]
+			work = work[:len(work)-1]
+			if seen[b] {
+				continue
+			}
+			seen[b] = true
+			if b == to {
+				return true
+			}
+			work = append(work, b.Succs...)
+		}
+		return false
+	}
+	later := func(in ssa.Instruction) bool {
+		b := in.Block()
+		if inLoop(b) {
+			return false
+		}
+		if b == cb {
+			for i, x := range b.Instrs {
+				if x == in {
+					return i > f.curIdx
+				}
+			}
+			return false
+		}
+		// no path leads from that instruction to the current one
+		return !reaches(b, cb)
+	}
+	var ok func(v ssa.Value, depth int) bool
+	ok = func(v ssa.Value, depth int) bool {
+		if depth > 6 || v.Referrers() == nil {
+			return false
+		}
+		for _, r := range *v.Referrers() {
+			switch x := r.(type) {
+			case *ssa.DebugRef:
+			case *ssa.UnOp:
+				if x.Op != token.MUL {
+					return false
+				}
+			case *ssa.Store:
+				if x.Val == v && !later(x) {
+					return false
+				}
+			case *ssa.FieldAddr:
+				if x.X != v || !ok(x, depth+1) {
+					return false
+				}
+			case *ssa.IndexAddr:
+				if x.X != v || !ok(x, depth+1) {
+					return false
+				}
+			case *ssa.Return:
+			default:
+				if !later(r) {
+					return false
+				}
+			}
+		}
+		return true
+	}
+	return ok(a, 0)
 }
 
 // privateAlloc reports whether the address produced by a is only ever
@@ -905,6 +995,27 @@ func privateAlloc(a *ssa.Alloc) bool {
 			case *ssa.Return:
 				if depth > 0 {
 					return false
+				}
+			case *ssa.MakeClosure:
+				// captured by a closure that is only deferred or called on the
+				// spot in this function: no other callee can reach the cell
+				if depth > 0 || x.Referrers() == nil {
+					return false
+				}
+				for _, cr := range *x.Referrers() {
+					switch c := cr.(type) {
+					case *ssa.DebugRef:
+					case *ssa.Defer:
+						if c.Call.Value != ssa.Value(x) {
+							return false
+						}
+					case *ssa.Call:
+						if c.Call.Value != ssa.Value(x) {
+							return false
+						}
+					default:
+						return false
+					}
 				}
 			default:
 				return false
